@@ -68,7 +68,23 @@ def run(chk, tier):
     chk.floor("R-GPNEXT", "imported identifier stores", ngp, 1)
     import uninit
     uninit.wire(chk, P, ["topology-xml.c", "topology-xml-nolibxml.c", "topology-xml-libxml.c"], 5)
+    chk.rule("R-MULWIDTH", "a product of numbers converted from XML text that is computed in a type of at most 32 bits cannot wrap: the function is explored with every conversion "
+             "forced to return 2^(w/2) (65536 for 32 bits, the smallest value whose square does not fit); the multiplication must be unreachable with that value, however the bound is written")
+    import mulwidth
+    from prog import ExampleProgram
+    from report import Check as _Check
+    nmw = mulwidth.run(chk, P, XML_UNITS)
+    ex = _Check("C06-example")
+    E = ExampleProgram(["mulwidth.c"])
+    mulwidth.run(ex, E, None, funcs=list(E.all_funcs()))
+    got = dict((i["function"], i["ok"]) for i in ex.instances)
+    want = {"matrix_bad": False, "matrix_weak": False, "matrix_good": True, "matrix_good2": True}
+    chk.need(got == want, "R-MULWIDTH: the positive example selftest/examples/mulwidth.c is not judged as expected (%s)" % got)
+    chk.inst("R-MULWIDTH", "<example>", "mulwidth.c", got == want, "positive example: fires on the unbounded product and on the bound that lets 65536 through, silent on the division test in a helper and on `>= 0x10000`",
+             loc="selftest/examples/mulwidth.c", nontrivial=False)
+    chk.floor("R-MULWIDTH", "narrow products of converted numbers in the XML import code + positive example", nmw + 1, 1)
     chk.decided += ['an imported object identifier keeps next_gp_index above it',
+                    'a number of objects read from XML is bounded before its square is computed in 32 bits (the distances matrix is allocated and bound-checked with the true number of values)',
                     'a local filled by a fallible reader is not read when the reader failed',
                     "no local allocation of the XML import/diff code is dropped on a path to a return (leak on rarely taken branches, e.g. under NO_CPUKINDS)",
                     'the XML import/diff code never uses a pointer after releasing it (failure paths included)',
